@@ -55,7 +55,11 @@ def names_for(locale, normalize, skip_default):
     if k in _tables:
         return _tables[k]
     inf = data.info(locale)
-    voc = data.vocabulary(inf, normalize)
+    # single meaning = the spelling as listed (lower-cased) appears under exactly one vocabulary key.  Under NORMALIZE the
+    # library strips accents/marks from its own copy of the vocabulary; listed words whose stripped forms collide with
+    # another listed word are still tested (class 'norm-collision'): the vocabulary lists each of them once.
+    voc = data.vocabulary(inf, False)
+    vocn = data.vocabulary(inf, True) if normalize else None
     pats = []
     for _, p in data.relative_patterns(inf):
         try:
@@ -68,8 +72,6 @@ def names_for(locale, normalize, skip_default):
         seen = set()
         for name in inf.get(key, []):
             w = name.lower()
-            if normalize:
-                w = data.nfkd(w)
             if w in seen:
                 continue
             seen.add(w)
@@ -106,6 +108,8 @@ def check_case(case):
         cls.append("diacritics")
     if any(ch.isdigit() for ch in name):
         cls.append("has-digit")
+    if normalize and data.vocabulary(data.info(locale), True).get(data.nfkd(name.lower())) != {key}:
+        cls.append("norm-collision")
     if " " in name:
         cls.append("has-space")
     if re.search(r"[^\w\s]", name, re.U):
